@@ -103,6 +103,12 @@ def _wrap_compute(i, orig):
             s.pass_budget -= 1
             if s.pass_budget < 0:
                 raise BudgetExceeded("one propagation pass executed more than (S+1)*P+P = %d propagators" % s.pass_bound)
+        if s.cur_pass is not None and s.detail:
+            _close_exec(s)
+            cp = s.cur_pass
+            cp["snap"] = cp["shr"][cp["top"]].copy()
+            cp["adds"] = []
+            cp["who"] = i
         inbox = domains.copy()
         status = orig(domains, params)
         s.n["filter"] += 1
@@ -124,6 +130,39 @@ def _wrap_compute(i, orig):
     return compute_domains
 
 
+def _close_exec(s):
+    """The write-back of the execution that has just finished: every bound it moved must have been announced."""
+    cp = s.cur_pass
+    if cp is None or cp["snap"] is None:
+        return
+    cur = cp["shr"][cp["top"]]
+    snap = cp["snap"]
+    cp["snap"] = None
+    changed = np.nonzero((cur[:, 0] != snap[:, 0]) | (cur[:, 1] != snap[:, 1]))[0]
+    for d in changed:
+        d = int(d)
+        need = (1 if cur[d, 0] > snap[d, 0] else 0) | (2 if cur[d, 1] < snap[d, 1] else 0)
+        if cur[d, 0] == cur[d, 1]:
+            need |= 4
+        got = 0
+        for dd, ev in cp["adds"]:
+            if dd == d:
+                got |= ev
+        if need & ~got:
+            s.emit("on_unannounced", cp["who"], d, snap[d].tolist(), cur[d].tolist(), need, got)
+
+
+def _wrap_add_propagators(orig):
+    def add_propagators(triggered_propagators, not_entailed_propagators, triggers, dom_idx, events):
+        s = CURRENT
+        if s is not None and s.cur_pass is not None and s.detail:
+            s.cur_pass["adds"].append((int(dom_idx), int(events)))
+        return orig(triggered_propagators, not_entailed_propagators, triggers, dom_idx, events)
+
+    add_propagators.__wrapped__ = orig
+    return add_propagators
+
+
 def _wrap_bc(orig):
     def bound_consistency_algorithm(*a):
         s = CURRENT
@@ -137,10 +176,12 @@ def _wrap_bc(orig):
         saved_budget, saved_bound, saved_pass = s.pass_budget, s.pass_bound, s.cur_pass
         s.pass_bound = (size + 1) * nprop + nprop
         s.pass_budget = s.pass_bound
-        s.cur_pass = {"changes": 0}
+        s.cur_pass = {"changes": 0, "shr": shr_domains_stack, "top": top, "snap": None, "adds": [], "who": None}
         s.n["bc"] += 1
         try:
             status = orig(*a)
+            if s.detail and status != nx.PROBLEM_INCONSISTENT:
+                _close_exec(s)
         finally:
             s.pass_budget, s.pass_bound, s.cur_pass = saved_budget, saved_bound, saved_pass
         if status == nx.PROBLEM_INCONSISTENT:
@@ -336,6 +377,8 @@ def install():
     ORIG["backtrack"] = M_CP.backtrack
     M_BS.backtrack = _wrap_backtrack(M_CP.backtrack, "solver")
     M_SH.backtrack = _wrap_backtrack(M_CP.backtrack, "shaving")
+    # announcements of the write-back (add_propagators is imported by name in the propagation loop)
+    M_BC.add_propagators = _wrap_add_propagators(M_BC.add_propagators)
     # propagation queue
     ORIG["pop"] = M_BC.pop_propagator
     M_BC.pop_propagator = _wrap_pop(M_BC.pop_propagator)
